@@ -198,7 +198,7 @@ def forcing_sites(ctx, rule="R13.3"):
     sm = prog.func(TOOLS, "set_model_angles")
     first = sm.body[-4] if len(sm.body) >= 4 else None
     body = [s for s in sm.body if not (isinstance(s, ast.Expr) and isinstance(s.value, ast.Constant))]
-    ok = (len(body) == 4 and isinstance(body[0], ast.If) and ast.unparse(body[0].test) == "latlon" and norm_stmt(body[0].body[0]) == "return np.array(no_of_angles(dim) * [0], dtype=np.double)"
+    ok = (len(body) == 4 and isinstance(body[0], ast.If) and ast.unparse(body[0].test) == "latlon" and norm_stmt(body[0].body[0]) == "return np.zeros(no_of_angles(dim), dtype=np.double)"
           and norm_stmt(body[1]) == "out_angles = set_angles(dim, angles)" and isinstance(body[2], ast.If) and ast.unparse(body[2].test) == "temporal"
           and [norm_stmt(x) for x in body[2].body] == ["out_angles[no_of_angles(dim - 1):] = 0.0"] and norm_stmt(body[3]) == "return out_angles")
     ctx.check(ok, rule, TOOLS + "::set_model_angles", "lat-lon: no rotation at all; temporal: exactly the angles involving the time axis (beyond no_of_angles(dim-1)) are zeroed", "angles")
@@ -243,6 +243,22 @@ def forcing_sites(ctx, rule="R13.3"):
     txt = ast.unparse(dh)
     ok = "deg_2_rad = M_PI / 180.0" in txt and "pos[0, j] - pos[0, i]" in txt and "pos[1, j] - pos[1, i]" in txt and "cos(pos[0, i] * deg_2_rad)" in txt and "cos(pos[0, j] * deg_2_rad)" in txt
     ctx.check(ok, rule, "variogram/estimator.pyx::dist_haversine", "haversine takes row 0 as latitude, row 1 as longitude, in degrees (same convention as latlon2pos)", "haversine-rows")
+    # every coordinate enters a trigonometric function in radians: each monomial of a sin / cos argument that reads pos carries deg_2_rad once
+    from ..small import _sym_subst, monomials, sym_eval
+
+    env = sym_eval(dh.body, opaque=("deg_2_rad",))
+    trig = [c for c in ast.walk(dh) if isinstance(c, ast.Call) and ast.unparse(c.func) in ("sin", "cos", "tan") and c.args]
+    n_tr = 0
+    for c in trig:
+        for sgn, num, den in monomials(_sym_subst(c.args[0], env)):
+            reads = [f for f in num if f.startswith("pos[")]
+            if not reads:
+                continue
+            n_tr += 1
+            ctx.check(num.count("deg_2_rad") == 1 and "deg_2_rad" not in den and not any(f.startswith("pos[") for f in den), rule, "variogram/estimator.pyx::dist_haversine",
+                      "%s(...) argument term %s%s is a coordinate in degrees times deg_2_rad (exactly once)" % (ast.unparse(c.func), "*".join(num), ("/" + "/".join(den)) if den else ""),
+                      "radians:%s:%s" % (ast.unparse(c.func), ",".join(reads)))
+    ctx.floor(rule, "coordinate terms inside trigonometric functions of dist_haversine", n_tr, 6)
     # field dims
     cm = prog.cls(BASE, "CovModel")
     fd = [ast.unparse(s.value) for s in cm.getters["field_dim"].body if isinstance(s, ast.Return)]
